@@ -1121,6 +1121,7 @@ func compileNumberForStmt(context *funcContext, stmt *ast.NumberForStmt) { // {{
 	ec := &expcontext{}
 
 	context.EnterBlock(endlabel, stmt)
+	nlocals := len(context.Proto.DbgLocals)
 	reg := context.RegTop()
 	rindex := context.RegisterLocalVar("(for index)")
 	ecupdate(ec, ecLocal, rindex, 0)
@@ -1142,6 +1143,11 @@ func compileNumberForStmt(context *funcContext, stmt *ast.NumberForStmt) { // {{
 	ecupdate(ec, ecLocal, rstep, 0)
 	compileExpr(context, reg, step, ec)
 
+	// fornum in lparser.c: the hidden variables have their registers from the start but become
+	// active (visible to debug.getlocal) only after the three expressions
+	for _, dl := range context.Proto.DbgLocals[nlocals:] {
+		dl.StartPc = code.LastPC() + 1
+	}
 	code.AddASbx(OP_FORPREP, rindex, 0, sline(stmt))
 
 	context.RegisterLocalVar(stmt.Name)
@@ -1171,6 +1177,7 @@ func compileGenericForStmt(context *funcContext, stmt *ast.GenericForStmt) { // 
 	nnames := len(stmt.Names)
 
 	context.EnterBlock(endlabel, stmt)
+	nlocals := len(context.Proto.DbgLocals)
 	rgen := context.RegisterLocalVar("(for generator)")
 	context.RegisterLocalVar("(for state)")
 	context.RegisterLocalVar("(for control)")
@@ -1179,6 +1186,10 @@ func compileGenericForStmt(context *funcContext, stmt *ast.GenericForStmt) { // 
 	// values must be nil whatever the number of loop variables
 	compileRegAssignment(context, []string{"(for generator)", "(for state)", "(for control)"}, stmt.Exprs, context.RegTop()-3, 3, sline(stmt))
 
+	// forlist in lparser.c: the hidden variables become active after the expression list
+	for _, dl := range context.Proto.DbgLocals[nlocals:] {
+		dl.StartPc = code.LastPC() + 1
+	}
 	code.AddASbx(OP_JMP, 0, fllabel, sline(stmt))
 
 	for _, name := range stmt.Names {
